@@ -793,6 +793,7 @@ func request(kind int, xid string) interface{} {
 }
 
 func (l *clientLab) run(em *emitter, sc scenario, seed int64, idx int) string {
+	nlose := 0
 	pol := l.policy
 	l.gen++
 	slots := map[int]*tc.Session{}
@@ -871,7 +872,13 @@ func (l *clientLab) run(em *emitter, sc scenario, seed int64, idx int) string {
 		case "lose":
 			resync()
 			if tbl[st.ID-1].Reg {
-				slots[st.ID].Lose()
+				// every other loss is one getty reports as an error: OnError and then OnClose for the same session
+				if (idx+nlose)%2 == 0 {
+					slots[st.ID].LoseByError(errors.New("read tcp: connection reset by peer"))
+				} else {
+					slots[st.ID].Lose()
+				}
+				nlose++
 				tbl[st.ID-1].Open, tbl[st.ID-1].Reg = false, false
 				delete(everClosedOnly, st.ID)
 				em.Add("Release", "id", st.ID, "sig", "release")
@@ -1232,7 +1239,11 @@ func runReconnect(em *emitter, policy string, sc scenario, o *common.Opts, idx i
 			early = nil
 			losses++
 			em.Add("Lose", "sig", sigOf())
-			cur.Lose()
+			if (idx+losses)%2 == 0 {
+				cur.LoseByError(errors.New("read tcp: connection reset by peer"))
+			} else {
+				cur.Lose()
+			}
 		case "reopen":
 			nsess++
 			before := 0
